@@ -253,8 +253,8 @@ Proof. vm_compute. repeat split; try reflexivity. repeat constructor. Qed.
 
 (* ---- FutureGroup / StreamGroup (Proofs/LiveGroups.v: the groups as an instance of ScanFull.Section Live, which speaks about occupied slots and the
         member a slot currently holds, so that members may come and go): after ANY history of inserts, removes, reserves, polls and wake-ups whose
-        inserted members are scripted (Pending | Item)* then Ready or End without a panic (and, in a FutureGroup, without End or Item: its members are
-        futures), if the group is not empty the wake-driven executor obtains the next output within B rounds, B any bound on the remaining script
+        inserted members are scripted (Pending | Item)* then Ready or End without a panic (in a FutureGroup without End or Item - its members are
+        futures -, in a StreamGroup without Ready), if the group is not empty the wake-driven executor obtains the next output within B rounds, B any bound on the remaining script
         lengths.  [goodop] is that condition on the history's insert operations; a round invokes the most recent waker of the member of every slot
         and polls with the same task. *)
 Theorem C01_group_next_result_under_wake_driven_executor stream cap0 ops B :
@@ -279,7 +279,7 @@ Example C01_group_rounds_witness :
 Proof.
   cbv zeta. split; [|vm_compute; repeat split; reflexivity].
   assert (Hst : forall (sc: list step), forallb (fun st => match answer st with APend | AReady _ => true | _ => false end) sc = true -> okscript false sc).
-  { intros sc H st Hin. rewrite forallb_forall in H. specialize (H st Hin). destruct (answer st); try discriminate; (split; [discriminate|]; intros _; split; [discriminate|intros v; discriminate]). }
+  { intros sc H st Hin. rewrite forallb_forall in H. specialize (H st Hin). destruct (answer st); try discriminate; (split; [discriminate|]; split; [intros _; split; [discriminate|intros v; discriminate]|intros X; discriminate]). }
   apply Forall_cons; [split; [apply Hst; reflexivity|reflexivity]|]. apply Forall_cons; [split; [apply Hst; reflexivity|reflexivity]|constructor].
 Qed.
 
